@@ -73,9 +73,9 @@ theorem RdfModel.C10.Witness.denotes :
 
 /-- the encoder theorem at the witness -/
 theorem RdfModel.C10.Witness.roundtrip :
-    ∃ doc out, encode Witness.cfg Witness.d0 (defaultOrd Witness.d0) = some doc ∧ toRdf true none doc = some out ∧
+    ∃ doc out, encode Witness.cfg Witness.d0 (defaultOrd Witness.d0) (defaultOrd Witness.d0) = some doc ∧ toRdf true none doc = some out ∧
       Spec.IsoQ out Witness.d0 :=
-  encoder_roundtrip_partial true none Witness.cfg Witness.name_injective Witness.d0 _ Witness.cert
+  encoder_roundtrip_partial true none Witness.cfg Witness.name_injective Witness.d0 _ _ Witness.cert
 
 #print axioms RdfModel.C10.Witness.denotes
 #print axioms RdfModel.C10.Witness.roundtrip
